@@ -1032,3 +1032,117 @@ Theorem parse_depth_unbounded : forall k, exists s, parse_m s = POk (list_ty k) 
 Proof.
   intro k. exists (nested_list k). split; [apply parse_m_nested_list|apply parse_depth_nested_list].
 Qed.
+
+(* ---------- 2c. parse_depth is a threshold: more fuel changes nothing ---------- *)
+(* q answers what p answers whenever p does not run out of fuel *)
+Definition ext (p q : sparser) : Prop := forall s, fst (p s) <> NoFuel -> fst (q s) = fst (p s).
+Lemma ext_refl : forall p, ext p p.
+Proof. intros p s _. reflexivity. Qed.
+
+Lemma and_loop_ext : forall ps qs, Forall2 ext ps qs ->
+  forall s, fst (and_loop ps s) <> NoFuel -> fst (and_loop qs s) = fst (and_loop ps s).
+Proof.
+  intros ps qs HF. induction HF as [|p q ps qs Hpq HF IH]; intros s Hs; [reflexivity|].
+  rewrite and_loop_fst_cons in Hs. rewrite !and_loop_fst_cons.
+  destruct (fst (p s)) as [n r| | |] eqn:E.
+  - rewrite (Hpq s) by (rewrite E; discriminate). rewrite E. f_equal. apply IH.
+    intro Hn. apply Hs. rewrite Hn. reflexivity.
+  - rewrite (Hpq s) by (rewrite E; discriminate). rewrite E. reflexivity.
+  - exfalso. apply Hs. reflexivity.
+  - rewrite (Hpq s) by (rewrite E; discriminate). rewrite E. reflexivity.
+Qed.
+
+Lemma lift_nofuel : forall {A B} (f : A -> B) (r : Peg.res A), lift f r <> NoFuel -> r <> NoFuel.
+Proof. intros A B f r H Hr. apply H. rewrite Hr. reflexivity. Qed.
+
+Lemma pand_ext : forall cb ps qs, Forall2 ext ps qs -> ext (pand cb ps) (pand cb qs).
+Proof.
+  intros cb ps qs HF s Hs. rewrite pand_fst in Hs. rewrite !pand_fst. f_equal.
+  apply and_loop_ext; [exact HF|]. exact (lift_nofuel _ _ Hs).
+Qed.
+
+Lemma por_ext : forall cb ps qs, Forall2 ext ps qs -> ext (por cb ps) (por cb qs).
+Proof.
+  intros cb ps qs HF. induction HF as [|p q ps qs Hpq HF IH]; intros s Hs; [reflexivity|].
+  rewrite por_fst_cons in Hs. rewrite !por_fst_cons.
+  destruct (fst (p s)) as [n r| | |] eqn:E.
+  - rewrite (Hpq s) by (rewrite E; discriminate). rewrite E. reflexivity.
+  - rewrite (Hpq s) by (rewrite E; discriminate). rewrite E. apply IH. exact Hs.
+  - exfalso. apply Hs. reflexivity.
+  - rewrite (Hpq s) by (rewrite E; discriminate). rewrite E. reflexivity.
+Qed.
+
+Lemma kleene_loop_ext : forall n (p q : sparser), ext p q ->
+  forall s, fst (kleene_loop n p s) <> NoFuel -> fst (kleene_loop n q s) = fst (kleene_loop n p s).
+Proof.
+  intros n p q Hpq. induction n as [|n IH]; intros s Hs; [reflexivity|].
+  rewrite kleene_loop_fst_S in Hs. rewrite !kleene_loop_fst_S.
+  destruct (fst (p s)) as [x r| | |] eqn:E.
+  - rewrite (Hpq s) by (rewrite E; discriminate). rewrite E.
+    destruct (Nat.ltb (String.length r) (String.length s)); [|reflexivity].
+    f_equal. apply IH. exact (lift_nofuel _ _ Hs).
+  - rewrite (Hpq s) by (rewrite E; discriminate). rewrite E. reflexivity.
+  - exfalso. apply Hs. reflexivity.
+  - rewrite (Hpq s) by (rewrite E; discriminate). rewrite E. reflexivity.
+Qed.
+
+Lemma kleene_ext : forall cb (p q : sparser), ext p q -> ext (kleene cb p) (kleene cb q).
+Proof.
+  intros cb p q Hpq s Hs. rewrite kleene_fst in Hs. rewrite !kleene_fst. f_equal.
+  apply kleene_loop_ext; [exact Hpq|]. exact (lift_nofuel _ _ Hs).
+Qed.
+
+Lemma pand_ext3 : forall cb (a b c a' b' c' : sparser), ext a a' -> ext b b' -> ext c c' ->
+  ext (pand cb [a; b; c]) (pand cb [a'; b'; c']).
+Proof.
+  intros cb a b c a' b' c' Ha Hb Hc. apply pand_ext.
+  apply Forall2_cons; [exact Ha|]. apply Forall2_cons; [exact Hb|]. apply Forall2_cons; [exact Hc|]. apply Forall2_nil.
+Qed.
+Lemma pand_ext4 : forall cb (a b c d a' b' c' d' : sparser), ext a a' -> ext b b' -> ext c c' -> ext d d' ->
+  ext (pand cb [a; b; c; d]) (pand cb [a'; b'; c'; d']).
+Proof.
+  intros cb a b c d a' b' c' d' Ha Hb Hc Hd. apply pand_ext.
+  apply Forall2_cons; [exact Ha|]. apply Forall2_cons; [exact Hb|]. apply Forall2_cons; [exact Hc|].
+  apply Forall2_cons; [exact Hd|]. apply Forall2_nil.
+Qed.
+
+Lemma decl_m_more : forall f, ext (decl_m f) (decl_m (S f)).
+Proof.
+  induction f as [|f IH]; intros s Hs; [exfalso; apply Hs; reflexivity|].
+  rewrite (decl_m_S (S f)). rewrite decl_m_S in Hs |- *. revert s Hs.
+  fold (ext (por None [basic_type; map_type (decl_m f); array_type (decl_m f); tuple_or_struct_type (decl_m f)])
+            (por None [basic_type; map_type (decl_m (S f)); array_type (decl_m (S f)); tuple_or_struct_type (decl_m (S f))])).
+  apply por_ext.
+  apply Forall2_cons; [apply ext_refl|].
+  apply Forall2_cons; [apply pand_ext4; try apply ext_refl; exact IH|].
+  apply Forall2_cons; [apply pand_ext3; try apply ext_refl; exact IH|].
+  apply Forall2_cons; [|apply Forall2_nil].
+  apply pand_ext4; try apply ext_refl. apply kleene_ext. exact IH.
+Qed.
+
+Lemma parse_within_more : forall d e s, d <= e -> parse_within d s = true -> parse_within e s = true.
+Proof.
+  intros d e s Hle. induction Hle as [|e Hle IH]; intro H; [exact H|].
+  specialize (IH H). unfold parse_within in IH |- *.
+  rewrite (decl_m_more e s); [exact IH|]. intro Hn. rewrite Hn in IH. discriminate IH.
+Qed.
+
+(* the type rule with fuel d answers (a node, or a refusal) exactly when d is at least parse_depth s,
+   and then always the same *)
+Theorem parse_depth_spec : forall s d, parse_within d s = true <-> parse_depth s <= d.
+Proof.
+  intros s d. split; [apply parse_depth_le|]. intro Hd.
+  apply (parse_within_more (parse_depth s)); [exact Hd|].
+  unfold parse_depth. destruct (least_from_spec (S (String.length s)) 0 s) as [_ H2].
+  destruct (Nat.lt_ge_cases (least_from (S (String.length s)) 0 s) (S (String.length s))) as [Hlt|Hge];
+    [apply H2; lia|].
+  apply (parse_within_more (S (open_count s))); [|apply parse_within_open_count].
+  pose proof (open_count_le_length s). lia.
+Qed.
+Theorem decl_m_stable : forall s d, parse_depth s <= d -> fst (decl_m d s) = fst (decl_m (parse_depth s) s).
+Proof.
+  intros s d Hd. induction Hd as [|d Hd IH]; [reflexivity|].
+  rewrite <- IH. apply decl_m_more. rewrite IH.
+  assert (H : parse_within (parse_depth s) s = true) by (apply parse_depth_spec; lia).
+  unfold parse_within in H. intro Hn. rewrite Hn in H. discriminate H.
+Qed.
